@@ -1,4 +1,3 @@
-import Proofs.Tie.Dec
 import Proofs.RejectConnect
 import Proofs.RejectSections
 import Proofs.FrameRead
